@@ -562,7 +562,10 @@ class Packet(object):
             data = datagram[PacketHeader.SIZE:length]
             pkt.msg = crypto.decrypt_gcm(key, iv, aad, data)
         else:
-            # packet is not encrypted: validate the crc
+            # packet is not encrypted: only a single handshake hello may travel in clear
+            if hdr.count != 1 or hdr.pkt_type not in (PacketType.CLIENT_HELLO, PacketType.SERVER_HELLO):
+                raise PacketError("unexpected unencrypted packet")
+            # validate the crc
             data = datagram[:length]
             crc_actual = crypto.crc32(data)
             crc_expected, = struct.unpack(">L", datagram[length:length+PacketHeader.CRC_SIZE])
